@@ -14,6 +14,9 @@ class RatFuncSegment:
     """
     value_type: DataType
 
+    #: data type of the values which the function is applied to
+    domain_type: DataType
+
     numerator_coeffs: List[Union[int, float]]
     denominator_coeffs: List[Union[int, float]]
 
@@ -37,7 +40,8 @@ class RatFuncSegment:
             denominator_coeffs=denominator_coeffs,
             lower_limit=lower_limit,
             upper_limit=upper_limit,
-            value_type=scale.range_type)
+            value_type=scale.range_type,
+            domain_type=scale.domain_type)
 
     def convert(self, value: AtomicOdxType) -> Union[float, int]:
         if not isinstance(value, (int, float)):
@@ -68,7 +72,7 @@ class RatFuncSegment:
     def applies(self, value: AtomicOdxType) -> bool:
         """Returns True iff the segment is applicable to a given internal value"""
         # Do type checks
-        expected_type = self.value_type.python_type
+        expected_type = self.domain_type.python_type
         if issubclass(expected_type, float):
             if not isinstance(value, (int, float)):
                 return False
